@@ -5,6 +5,8 @@ from __future__ import annotations
 
 import itertools
 
+from frozendict import frozendict
+
 from . import common
 
 common.setup_repo_path()
@@ -39,6 +41,8 @@ def twin_pool():
         P.Implies(P.neg(a), P.Implies(a, P.bot())),
         # a metavariable whose only constraint is a list of application-context holes
         P.Implies(P.MetaVar(3, app_ctx_holes=(P.EVar(1),)), P.App(a, P.MetaVar(3, app_ctx_holes=(P.EVar(1),)))),
+        # an application of a (notation-like) definition whose argument map is not in ascending key order
+        P.Instantiate(P.Implies(P.MetaVar(0), P.Implies(P.MetaVar(1), P.MetaVar(2))), frozendict({2: P.Symbol('c'), 0: a, 1: P.Symbol('b')})),
     ]
 
 
@@ -105,7 +109,20 @@ def build(shape: str, axiom_idx: tuple, claim_mode: str = 'all', share: bool = F
             proofs.append(m.load_axiom(a))
     top.add_claims(list(claims))
     top.add_proof_expressions(list(proofs))
-    return top, {'published': [a for _, a in pub], 'claims': claims}
+    def published_with(extra):
+        """expected publish order when the axioms `extra[name]` were added to node `name` after construction"""
+        def cl(name):
+            imports, axs = spec[name]
+            out = []
+            for i in imports:
+                out += cl(i)
+            seen_here = list(axs)
+            for x in extra.get(name, ()):
+                if not any(x == y for y in seen_here):
+                    seen_here.append(x)
+            return out + seen_here
+        return cl(order[-1])
+    return top, {'published': [a for _, a in pub], 'claims': claims, 'nodes': nodes, 'published_with': published_with}
 
 
 def family(n_axiom_choices: int):
@@ -135,7 +152,7 @@ def twin_family():
     return out
 
 
-def nested_module(variant: int):
+def nested_module(variant: int, with_info: bool = False):
     """a theory whose axioms contain one another (f a, f a -> f a, f a -> (f a -> f a), f a -> c) in one of several
     declaration orders; every axiom is claimed and proved by loading it, plus two prop1 instances built on the stack"""
     from proof_generation.proofs.propositional import Propositional
@@ -148,11 +165,19 @@ def nested_module(variant: int):
     orders = [[fa_c, fa_fa_fa, fa_fa, fa], [fa, fa_fa, fa_fa_fa, fa_c], [fa_fa, fa, fa_c, fa_fa_fa], [P.neg(fa), fa, P._and(fa, c), c]]
     m = ProofExp()
     prop = m.import_module(Propositional())
-    m.add_axioms(orders[variant % len(orders)])
-    for ax in m.get_axioms():
+    own = orders[variant % len(orders)]
+    m.add_axioms(own)
+    claims = []
+    for ax in own:
         m.add_claim(ax)
+        claims.append(ax)
         m.add_proof_expression(m.load_axiom(ax))
-    for p_, q_ in [(fa_fa_fa, a), (fa_c, fa_fa_c)]:
+    # the plugs are built on the stack in the proof phase: (c, f a) meets the symbols in another order than the theory
+    for p_, q_ in [(fa_fa_fa, a), (fa_c, fa_fa_c), (c, fa)]:
         m.add_claim(P.Implies(p_, P.Implies(q_, p_)))
+        claims.append(P.Implies(p_, P.Implies(q_, p_)))
         m.add_proof_expression(prop.prop1_inst(p_, q_))
+    if with_info:
+        # declaration, from the specification: the imported library's axioms first, then this module's own
+        return m, {'published': list(Propositional().get_axioms()) + list(own), 'claims': claims}
     return m
